@@ -1016,6 +1016,12 @@ func (x *mslCall) evalAtomic(ev *evaluator) Value {
 		ev.trap("atomic function in a constant expression")
 	}
 	ref := ev.evalRef(x.Args[0])
+	if x.Name == "atomic_store_explicit" {
+		v := ev.eval(x.Args[1])
+		ev.eval(x.Args[2])
+		ev.store(ref, Value{T: ref.T, C: []Cell{v.C[0]}}, x.Pos)
+		return Value{T: tVoid}
+	}
 	old := ev.load(ref)
 	if p := old.anyPoison(); p != 0 {
 		ev.observe(p, "undefined value read by metal::"+x.Name, x.Pos)
@@ -1050,11 +1056,6 @@ func (x *mslCall) evalAtomic(ev *evaluator) Value {
 	case "atomic_load_explicit":
 		ev.eval(x.Args[1])
 		return oldV
-	case "atomic_store_explicit":
-		v := ev.eval(x.Args[1])
-		ev.eval(x.Args[2])
-		put(v.C[0])
-		return Value{T: tVoid}
 	}
 	v := ev.eval(x.Args[1])
 	ev.eval(x.Args[2])
